@@ -414,15 +414,19 @@ def run(args):
                         if real["passes"] != int(m.group(1)):
                             mism.append("passes %s vs model %s" % (real["passes"], m.group(1)))
                         img = real["img"] or {}
-                        for r in [x for x in m.group(3).split(",") if x]:
+                        ref_list = [x for x in m.group(3).split(",") if x]
+                        ref_stmts = [s for s in stmts if s.startswith("R")]
+                        for ri, r in enumerate(ref_list):
                             a_, sym, v = (int(y) for y in r.split(":"))
                             if flavour == "6502":
                                 got = (img.get((1, a_)), img.get((1, a_ + 1)), img.get((1, a_ + 2)))
-                                kind = [s for s in stmts if s.startswith("R%d:" % sym)]
+                                # the references come in statement order: a data word (`adr`, kind w2) is read as a word even if its low
+                                # byte happens to be $A5 / $AD - reading it as an LDA opcode was a false alarm of the harness
+                                is_word = len(ref_stmts) == len(ref_list) and ref_stmts[ri].endswith(":w2")
                                 # operand bytes
-                                if got[0] == 0xA5:
+                                if got[0] == 0xA5 and not is_word:
                                     val = got[1]
-                                elif got[0] == 0xAD:
+                                elif got[0] == 0xAD and not is_word:
                                     val = got[1] | (got[2] << 8)
                                 else:
                                     val = got[0] | (got[1] << 8) if None not in got[:2] else None
